@@ -1,16 +1,76 @@
+// C24 driver: the REAL scheduler.TreeScheduler driven by event scripts
+// (Schedule / Release / clock advance / a parked run returns).
+//
+// Two modes:
+//   - mock: benbjohnson/clock's Mock (the clock the scheduler's own tests use), wrapped
+//     only to count Now() calls and to keep a handle on the timer.  The clock is moved
+//     deadline by deadline; after every event the driver waits until the scheduler is
+//     quiescent, decided from the goroutine states (runtime.Stack), never from sleeps:
+//     loop goroutine parked in its select and every worker either in its channel
+//     receive or parked inside the script's executor; or the loop goroutine busy-waiting
+//     (Now() counter advancing) with unchanged workers/log.
+//     The Mock cannot represent a timer re-armed with a negative duration (it moves its
+//     clock BACKWARDS and Set() live-locks), so a script is cut before an event that
+//     would make the scheduler evaluate its "minimum not due yet" branch.
+//   - real: the real clock, schedules of 2s granularity, actions on odd seconds.  Used
+//     for the scripts that do reach that branch: the driver counts Now() calls to see
+//     whether the loop spins while nothing is due.
 package main
 
 import (
 	"context"
+	"encoding/binary"
 	"fmt"
+	"math/rand/v2"
 	"runtime"
+	"sort"
+	"strings"
 	"sync"
 	"sync/atomic"
 	"time"
 
 	"github.com/benbjohnson/clock"
+	"github.com/cespare/xxhash/v2"
 	"github.com/influxdata/influxdb/v2/task/backend/scheduler"
+	"verifh/vh"
 )
+
+const knownSig = "C24-stale-when-negative-rearm-spin"
+
+// ---- case format ----
+
+type jev struct {
+	E     string `json:"e"` // schedule | release | advance | done
+	ID    uint64 `json:"id,omitempty"`
+	Every int64  `json:"every,omitempty"`
+	Off   int64  `json:"off,omitempty"`
+	Last  int64  `json:"last,omitempty"`
+	T     int64  `json:"t,omitempty"`
+}
+type jexec struct {
+	ID uint64 `json:"id"`
+	SF int64  `json:"scheduled_for"`
+}
+type jobs struct {
+	Ex   []jexec `json:"executed"`
+	When *int64  `json:"when"`
+	Spin bool    `json:"spin"`
+	Neg  bool    `json:"spins_while_nothing_due"`
+}
+type jcase struct {
+	Mode    string   `json:"mode"` // mock | real
+	Workers int      `json:"workers"`
+	Parked  []uint64 `json:"parked"`
+	Evs     []jev    `json:"events"`
+	Obs     []jobs   `json:"impl_obs"`
+	Seed    uint64   `json:"gen_seed,omitempty"`
+	MaxLen  int      `json:"gen_len,omitempty"`
+	Fail    string   `json:"impl_failure,omitempty"`
+	Cut     string   `json:"cut,omitempty"`
+	pickIDs []uint64
+}
+
+// ---- counting clock ----
 
 type cclock struct {
 	clock.Clock
@@ -25,6 +85,8 @@ func (c *cclock) Timer(d time.Duration) *clock.Timer {
 	return t
 }
 
+// ---- schedulable / executor / checkpointer ----
+
 type sched struct {
 	id   scheduler.ID
 	s    scheduler.Schedule
@@ -37,44 +99,767 @@ func (s sched) Schedule() scheduler.Schedule { return s.s }
 func (s sched) Offset() time.Duration        { return s.off }
 func (s sched) LastScheduled() time.Time     { return s.last }
 
+type rec struct {
+	id uint64
+	sf time.Time
+}
 type exec struct {
-	mu  sync.Mutex
-	log []string
+	mu       sync.Mutex
+	log      []rec
+	inflight map[uint64]int
+	overlap  string
+	gates    map[uint64]chan struct{}
+	parked   map[uint64]bool
 }
 
 func (e *exec) Execute(ctx context.Context, id scheduler.ID, sf time.Time, runAt time.Time) error {
 	e.mu.Lock()
-	e.log = append(e.log, fmt.Sprintf("%d@%s", id, sf.Format("05.000")))
+	e.log = append(e.log, rec{uint64(id), sf})
+	e.inflight[uint64(id)]++
+	if e.inflight[uint64(id)] > 1 && e.overlap == "" {
+		e.overlap = fmt.Sprintf("task %d: Execute called while a run of the same task is still executing", id)
+	}
+	p := e.parked[uint64(id)]
+	g := e.gates[uint64(id)]
+	e.mu.Unlock()
+	if p {
+		<-g
+	}
+	e.mu.Lock()
+	e.inflight[uint64(id)]--
 	e.mu.Unlock()
 	return nil
 }
 
-type cp struct{}
+type cpt struct{}
 
-func (cp) UpdateLastScheduled(ctx context.Context, id scheduler.ID, t time.Time) error { return nil }
+func (cpt) UpdateLastScheduled(ctx context.Context, id scheduler.ID, t time.Time) error { return nil }
 
-func main() {
-	cc := &cclock{Clock: clock.New()}
-	ex := &exec{}
-	s, _, err := scheduler.NewScheduler(ex, cp{}, scheduler.WithTime(cc), scheduler.WithMaxConcurrentWorkers(2))
+// ---- one scheduler under test ----
+
+type task struct{ every, off, next int64 }
+
+type runner struct {
+	gid      int
+	real     bool
+	mock     *clock.Mock
+	cc       *cclock
+	s        *scheduler.TreeScheduler
+	ex       *exec
+	base     time.Time
+	nw       int
+	tasks    map[uint64]*task
+	consumed int
+	idle     bool // loop goroutine parked in select at the last quiescent point
+	fail     string
+}
+
+func curGID() int {
+	buf := make([]byte, 64)
+	n := runtime.Stack(buf, false)
+	var id int
+	fmt.Sscanf(string(buf[:n]), "goroutine %d ", &id)
+	return id
+}
+
+func workerOf(id uint64, n int) uint64 {
+	buf := [8]byte{}
+	binary.LittleEndian.PutUint64(buf[:], id)
+	return xxhash.Sum64(buf[:]) % uint64(n)
+}
+
+func newRunner(c *jcase) *runner {
+	r := &runner{gid: curGID(), real: c.Mode == "real", nw: c.Workers, tasks: map[uint64]*task{}, idle: true}
+	r.ex = &exec{inflight: map[uint64]int{}, gates: map[uint64]chan struct{}{}, parked: map[uint64]bool{}}
+	for _, id := range c.Parked {
+		r.ex.parked[id] = true
+	}
+	for id := uint64(0); id < 16; id++ {
+		r.ex.gates[id] = make(chan struct{})
+	}
+	if r.real {
+		r.cc = &cclock{Clock: clock.New()}
+	} else {
+		r.mock = clock.NewMock()
+		r.cc = &cclock{Clock: r.mock}
+		r.base = time.Unix(0, 0)
+	}
+	s, _, err := scheduler.NewScheduler(r.ex, cpt{}, scheduler.WithTime(r.cc), scheduler.WithMaxConcurrentWorkers(c.Workers))
 	if err != nil {
 		panic(err)
 	}
-	base := time.Now().Truncate(time.Second)
-	e1, _, _ := scheduler.NewSchedule("@every 1s", base)
-	e5, _, _ := scheduler.NewSchedule("@every 5s", base)
-	s.Schedule(sched{1, e1, 0, base})
-	s.Schedule(sched{2, e5, 0, base})
-	fmt.Println("when", s.When().Sub(base), "now calls", cc.now.Load())
-	s.Release(1)
-	for i := 0; i < 12; i++ {
-		time.Sleep(500 * time.Millisecond)
-		ex.mu.Lock()
-		fmt.Printf("t=%.1f nowcalls=%d when=%v log=%v\n", time.Since(base).Seconds(), cc.now.Load(), s.When().Sub(base), ex.log)
-		ex.mu.Unlock()
+	r.s = s
+	return r
+}
+
+func (r *runner) secs(t time.Time) int64 {
+	d := t.Sub(r.base)
+	if r.real { // s.when = Now()+until carries a few hundred ns of drift under the real clock
+		return int64((d + 500*time.Millisecond) / time.Second)
 	}
-	buf := make([]byte, 1<<16)
+	return int64(d / time.Second)
+}
+func (r *runner) at(s int64) time.Time { return r.base.Add(time.Duration(s) * time.Second) }
+
+func (r *runner) nowS() int64 { return r.secs(r.cc.Clock.Now()) }
+
+type snap struct {
+	loopIdle, workersOK bool
+	parked              int
+	logLen              int
+	nowCalls            int64
+	tick                bool
+	found               int
+}
+
+var stackMu sync.Mutex
+var failCount atomic.Int64 // after a few implementation failures the remaining cases are skipped
+
+func (r *runner) snapshot() snap {
+	stackMu.Lock()
+	buf := make([]byte, 1<<20)
 	n := runtime.Stack(buf, true)
-	fmt.Println(string(buf[:n]))
-	s.Stop()
+	stackMu.Unlock()
+	var sn snap
+	sn.workersOK = true
+	marker := fmt.Sprintf("scheduler.NewScheduler in goroutine %d\n", r.gid)
+	for _, blk := range strings.Split(string(buf[:n]), "\n\n") {
+		if !strings.Contains(blk+"\n", marker) {
+			continue
+		}
+		lines := strings.Split(blk, "\n")
+		if len(lines) < 2 {
+			continue
+		}
+		st := lines[0]
+		if i := strings.Index(st, "["); i >= 0 {
+			st = st[i+1:]
+		}
+		if i := strings.IndexAny(st, ",]"); i >= 0 {
+			st = st[:i]
+		}
+		top := lines[1]
+		sn.found++
+		switch {
+		case strings.Contains(blk, "scheduler.NewScheduler.func"):
+			sn.loopIdle = st == "select" && strings.Contains(top, "scheduler.NewScheduler.func")
+		case strings.Contains(blk, "(*TreeScheduler).work("):
+			if st == "chan receive" && strings.Contains(top, "(*TreeScheduler).work(") {
+				// free
+			} else if st == "chan receive" && strings.Contains(blk, "main.(*exec).Execute(") {
+				sn.parked++
+			} else {
+				sn.workersOK = false
+			}
+		}
+	}
+	r.ex.mu.Lock()
+	sn.logLen = len(r.ex.log)
+	r.ex.mu.Unlock()
+	sn.nowCalls = r.cc.now.Load()
+	sn.tick = r.cc.timer != nil && len(r.cc.timer.C) > 0
+	if sn.found != r.nw+1 {
+		sn.workersOK = false
+	}
+	return sn
+}
+
+// waitQuiescent (mock mode): returns (idle, ok).
+func (r *runner) waitQuiescent() bool {
+	deadline := time.Now().Add(15 * time.Second)
+	pause := 20 * time.Microsecond
+	for time.Now().Before(deadline) {
+		a := r.snapshot()
+		if a.workersOK && !a.tick {
+			if a.loopIdle {
+				b := r.snapshot()
+				if b.loopIdle && b.workersOK && !b.tick && b.logLen == a.logLen && b.nowCalls == a.nowCalls && b.parked == a.parked {
+					r.idle = true
+					return true
+				}
+			} else {
+				// busy-waiting candidate: let the loop make several full iterations
+				t1 := time.Now().Add(2 * time.Second)
+				for r.cc.now.Load() < a.nowCalls+24 && time.Now().Before(t1) {
+					runtime.Gosched()
+				}
+				b := r.snapshot()
+				if r.cc.now.Load() >= a.nowCalls+24 && !b.loopIdle && b.workersOK && !b.tick && b.logLen == a.logLen && b.parked == a.parked && b.parked > 0 {
+					r.idle = false
+					return true
+				}
+			}
+		}
+		time.Sleep(pause)
+		if pause < 2*time.Millisecond {
+			pause *= 2
+		}
+	}
+	return false
+}
+
+func (r *runner) setClock(t time.Time) bool {
+	done := make(chan struct{})
+	go func() { r.mock.Set(t); close(done) }()
+	select {
+	case <-done:
+		return true
+	case <-time.After(20 * time.Second):
+		return false
+	}
+}
+
+// observe drains the new log entries and builds the observation.
+func (r *runner) observe(spin, neg bool) jobs {
+	o := jobs{Ex: []jexec{}, Spin: spin, Neg: neg}
+	r.ex.mu.Lock()
+	for _, x := range r.ex.log[r.consumed:] {
+		sf := r.secs(x.sf)
+		o.Ex = append(o.Ex, jexec{x.id, sf})
+		if t, ok := r.tasks[x.id]; ok {
+			t.next = sf + t.every
+		}
+	}
+	r.consumed = len(r.ex.log)
+	if r.ex.overlap != "" && r.fail == "" {
+		r.fail = r.ex.overlap
+	}
+	r.ex.mu.Unlock()
+	if w := r.s.When(); !w.IsZero() {
+		v := r.secs(w)
+		o.When = &v
+	}
+	return o
+}
+
+func (r *runner) minWhen(skip uint64, useSkip bool) (int64, bool) {
+	var m int64
+	ok := false
+	for id, t := range r.tasks {
+		if useSkip && id == skip {
+			continue
+		}
+		if w := t.next + t.off; !ok || w < m {
+			m, ok = w, true
+		}
+	}
+	return m, ok
+}
+
+func (r *runner) inflight(id uint64) bool {
+	r.ex.mu.Lock()
+	defer r.ex.mu.Unlock()
+	return r.ex.inflight[id] > 0
+}
+
+// safe (mock mode): would this event make the scheduler evaluate its "minimum is not
+// due yet" branch (negative re-arm), or arm the timer while the loop is busy-waiting?
+func (r *runner) safe(e jev) bool {
+	now := r.nowS()
+	switch e.E {
+	case "advance":
+		if e.T < now {
+			return false
+		}
+		if !r.idle {
+			return true
+		}
+		w := r.s.When()
+		if w.IsZero() || r.secs(w) > e.T {
+			return true
+		}
+		stop := r.secs(w)
+		if stop < now {
+			stop = now
+		}
+		m, ok := r.minWhen(0, false)
+		return !ok || m <= stop
+	case "schedule":
+		if r.idle {
+			return true
+		}
+		nw := e.Last + e.Every + e.Off
+		if w := r.s.When(); w.IsZero() || nw < r.secs(w) {
+			return false
+		}
+		m, ok := r.minWhen(e.ID, true)
+		return (ok && m <= now) || nw <= now
+	case "release":
+		if r.idle {
+			return true
+		}
+		m, ok := r.minWhen(e.ID, true)
+		return !ok || m <= now
+	}
+	return true
+}
+
+func mkSchedule(every int64) scheduler.Schedule {
+	s, _, err := scheduler.NewSchedule(fmt.Sprintf("@every %ds", every), time.Unix(0, 0))
+	if err != nil {
+		panic(err)
+	}
+	return s
+}
+
+// apply one event in mock mode; returns the observation.
+func (r *runner) applyMock(e jev) (jobs, bool) {
+	switch e.E {
+	case "schedule":
+		if err := r.s.Schedule(sched{scheduler.ID(e.ID), mkSchedule(e.Every), time.Duration(e.Off) * time.Second, r.at(e.Last)}); err != nil {
+			r.fail = "Schedule returned " + err.Error()
+		}
+		r.tasks[e.ID] = &task{every: e.Every, off: e.Off, next: e.Last + e.Every}
+		if r.idle { // a timer armed with Reset(0) fires at once under a real clock; the Mock needs a nudge
+			if !r.setClock(r.cc.Clock.Now()) {
+				r.fail = "mock clock Set did not return (timer keeps being re-armed in the past)"
+				return jobs{}, false
+			}
+		}
+	case "release":
+		if err := r.s.Release(scheduler.ID(e.ID)); err != nil {
+			r.fail = "Release returned " + err.Error()
+		}
+		delete(r.tasks, e.ID)
+	case "done":
+		if r.inflight(e.ID) {
+			r.ex.gates[e.ID] <- struct{}{}
+		}
+	case "advance":
+		for i := 0; i < 10000 && r.idle; i++ {
+			w := r.s.When()
+			if w.IsZero() || r.secs(w) > e.T {
+				break
+			}
+			stop := w
+			if n := r.cc.Clock.Now(); stop.Before(n) {
+				stop = n
+			}
+			before := r.cc.now.Load()
+			if !r.setClock(stop) {
+				r.fail = "mock clock Set did not return (timer keeps being re-armed in the past)"
+				return jobs{}, false
+			}
+			if !r.waitQuiescent() {
+				r.fail = "scheduler did not reach a quiescent state"
+				return jobs{}, false
+			}
+			r.drainBook()
+			if r.idle && r.s.When().Equal(w) && r.cc.now.Load() == before {
+				break // nothing armed at that deadline
+			}
+		}
+		if !r.setClock(r.at(e.T)) {
+			r.fail = "mock clock Set did not return"
+			return jobs{}, false
+		}
+	}
+	if !r.waitQuiescent() {
+		r.fail = "scheduler did not reach a quiescent state"
+		return jobs{}, false
+	}
+	return r.observe(!r.idle, false), true
+}
+
+// drainBook updates the per-task book-keeping from the log without consuming it.
+func (r *runner) drainBook() {
+	r.ex.mu.Lock()
+	for _, x := range r.ex.log[r.consumed:] {
+		if t, ok := r.tasks[x.id]; ok {
+			if sf := r.secs(x.sf); sf+t.every > t.next {
+				t.next = sf + t.every
+			}
+		}
+	}
+	r.ex.mu.Unlock()
+}
+
+func (r *runner) shutdown() {
+	// let every parked run return, then stop
+	stop := make(chan struct{})
+	go func() {
+		for {
+			select {
+			case <-stop:
+				return
+			default:
+			}
+			for id, g := range r.ex.gates {
+				_ = id
+				select {
+				case g <- struct{}{}:
+				default:
+				}
+			}
+			time.Sleep(200 * time.Microsecond)
+		}
+	}()
+	done := make(chan struct{})
+	go func() { r.s.Stop(); close(done) }()
+	select {
+	case <-done:
+	case <-time.After(10 * time.Second):
+	}
+	close(stop)
+}
+
+// ---- generation (mock mode, on the fly so that unsafe events are never issued) ----
+
+var everyMenu = []int64{1, 2, 3, 5, 7, 10}
+var offMenu = []int64{0, 0, 0, 1, 2, -1, 3}
+
+func (r *runner) gen(rng *rand.Rand, ids []uint64) (jev, bool) {
+	for try := 0; try < 30; try++ {
+		now := r.nowS()
+		var e jev
+		k := rng.IntN(16)
+		anyFly := false
+		for _, id := range ids {
+			if r.inflight(id) {
+				anyFly = true
+			}
+		}
+		switch {
+		case k < 4 || len(r.tasks) == 0 && k < 9:
+			id := ids[rng.IntN(len(ids))]
+			e = jev{E: "schedule", ID: id, Every: everyMenu[rng.IntN(len(everyMenu))], Off: offMenu[rng.IntN(len(offMenu))]}
+			switch rng.IntN(4) {
+			case 0:
+				e.Last = now
+			case 1:
+				e.Last = now - int64(rng.IntN(4))
+			case 2:
+				e.Last = now - int64(rng.IntN(16)) // catch-up
+			default:
+				e.Last = now - now%e.Every
+			}
+		case k < 6:
+			e = jev{E: "release", ID: ids[rng.IntN(len(ids))]}
+			if len(r.tasks) > 0 && rng.IntN(4) != 0 { // mostly a task that is scheduled
+				var live []uint64
+				for _, id := range ids {
+					if _, ok := r.tasks[id]; ok {
+						live = append(live, id)
+					}
+				}
+				e.ID = live[rng.IntN(len(live))]
+			}
+		case k < 9 && anyFly:
+			id := ids[rng.IntN(len(ids))]
+			if !r.inflight(id) {
+				continue
+			}
+			e = jev{E: "done", ID: id}
+		default:
+			d := int64(rng.IntN(4))
+			if rng.IntN(3) == 0 {
+				d = int64(rng.IntN(13))
+			}
+			e = jev{E: "advance", T: now + d}
+		}
+		if r.safe(e) {
+			return e, true
+		}
+	}
+	return jev{}, false
+}
+
+func runMock(c *jcase, replay bool) {
+	done := make(chan struct{})
+	go func() {
+		defer close(done)
+		if failCount.Load() >= 3 {
+			c.Evs, c.Obs, c.Cut = nil, nil, "skipped: three earlier cases already failed on the implementation"
+			return
+		}
+		defer func() {
+			if c.Fail != "" {
+				failCount.Add(1)
+			}
+		}()
+		r := newRunner(c)
+		defer r.shutdown()
+		if !r.waitQuiescent() {
+			c.Fail = "scheduler not quiescent after start"
+			return
+		}
+		var ids []uint64
+		if !replay {
+			ids = c.pickIDs
+		}
+		rng := rand.New(rand.NewPCG(c.Seed, 24))
+		evs := c.Evs
+		c.Obs = nil
+		if !replay {
+			c.Evs = nil
+		}
+		for i := 0; ; i++ {
+			var e jev
+			if replay || i < len(evs) { // scripted prefix (hand-picked cases) or replay
+				if i >= len(evs) {
+					break
+				}
+				e = evs[i]
+				if !r.safe(e) {
+					c.Cut = fmt.Sprintf("event %d (%s) not issued: it would make the scheduler re-arm its timer with a negative duration, which the mock clock cannot represent (see real-mode cases)", i, e.E)
+					if replay {
+						c.Evs = c.Evs[:i]
+					}
+					break
+				}
+			} else {
+				if i >= c.MaxLen {
+					break
+				}
+				var ok bool
+				e, ok = r.gen(rng, ids)
+				if !ok {
+					c.Cut = "no safe event found"
+					break
+				}
+			}
+			o, ok := r.applyMock(e)
+			if !replay {
+				c.Evs = append(c.Evs, e)
+			}
+			if !ok {
+				c.Fail = r.fail
+				if !replay {
+					c.Evs = c.Evs[:len(c.Evs)-1]
+				} else {
+					c.Evs = c.Evs[:i]
+				}
+				break
+			}
+			c.Obs = append(c.Obs, o)
+			if r.fail != "" {
+				c.Fail = r.fail
+				break
+			}
+		}
+	}()
+	<-done
+}
+
+// ---- real mode ----
+
+func runReal(c *jcase) {
+	done := make(chan struct{})
+	go func() {
+		defer close(done)
+		r := newRunner(c)
+		defer r.shutdown()
+		// start shortly after a whole second
+		for {
+			n := time.Now()
+			if n.Sub(n.Truncate(time.Second)) < 100*time.Millisecond {
+				r.base = n.Truncate(time.Second)
+				break
+			}
+			time.Sleep(20 * time.Millisecond)
+		}
+		c.Obs = nil
+		for _, e := range c.Evs {
+			switch e.E {
+			case "schedule":
+				if err := r.s.Schedule(sched{scheduler.ID(e.ID), mkSchedule(e.Every), time.Duration(e.Off) * time.Second, r.at(e.Last)}); err != nil {
+					r.fail = "Schedule returned " + err.Error()
+				}
+				r.tasks[e.ID] = &task{every: e.Every, off: e.Off, next: e.Last + e.Every}
+			case "release":
+				_ = r.s.Release(scheduler.ID(e.ID))
+				delete(r.tasks, e.ID)
+			case "advance": // odd second: half way between two schedule instants (all even)
+				time.Sleep(time.Until(r.at(e.T)))
+			}
+			time.Sleep(250 * time.Millisecond)
+			// log and When() first (750ms before the next schedule instant), then:
+			// does the loop goroutine spin?  count Now() calls over 150ms
+			o := r.observe(false, false)
+			n0 := r.cc.now.Load()
+			time.Sleep(150 * time.Millisecond)
+			spins := r.cc.now.Load()-n0 > 2000
+			o.Spin, o.Neg = spins, spins
+			c.Obs = append(c.Obs, o)
+		}
+		c.Fail = r.fail
+	}()
+	<-done
+}
+
+// ---- Gallina rendering ----
+
+func evTerm(e jev) string {
+	switch e.E {
+	case "schedule":
+		return fmt.Sprintf("Schedule %s %s %s %s", vh.N(e.ID), vh.Z(e.Every), vh.Z(e.Off), vh.Z(e.Last))
+	case "release":
+		return "Release " + vh.N(e.ID)
+	case "done":
+		return "Done " + vh.N(e.ID)
+	}
+	return "Advance " + vh.Z(e.T)
+}
+func obsTerm(o jobs) string {
+	xs := make([]string, len(o.Ex))
+	for i, x := range o.Ex {
+		xs[i] = vh.Pair(vh.N(x.ID), vh.Z(x.SF))
+	}
+	w := "None"
+	if o.When != nil {
+		w = vh.Some(vh.Z(*o.When))
+	}
+	// constructor form: Coq elaborates it several times faster than {| ... |}
+	return fmt.Sprintf("(Build_obs %s %s %s %s)", vh.List(xs), w, vh.Bool(o.Spin), vh.Bool(o.Neg))
+}
+
+func (c *jcase) ids() []uint64 {
+	m := map[uint64]bool{}
+	for _, e := range c.Evs {
+		if e.E != "advance" {
+			m[e.ID] = true
+		}
+	}
+	for _, id := range c.pickIDs {
+		m[id] = true
+	}
+	var ids []uint64
+	for id := range m {
+		ids = append(ids, id)
+	}
+	sort.Slice(ids, func(i, j int) bool { return ids[i] < ids[j] })
+	return ids
+}
+
+func add(w *vh.W, c *jcase) {
+	idx := w.Len()
+	evs := make([]string, len(c.Evs))
+	sig := ""
+	live := map[uint64]bool{}
+	nrel, nexec, spins := 0, 0, 0
+	for i, e := range c.Evs {
+		evs[i] = "(" + evTerm(e) + ")"
+		// shape: the script releases a scheduled task or re-schedules one (from the events only)
+		switch e.E {
+		case "schedule":
+			if live[e.ID] {
+				sig = knownSig
+			}
+			live[e.ID] = true
+		case "release":
+			if live[e.ID] {
+				sig = knownSig
+				nrel++
+			}
+			delete(live, e.ID)
+		}
+		w.Count("event", e.E)
+	}
+	obs := make([]string, len(c.Obs))
+	for i, o := range c.Obs {
+		obs[i] = obsTerm(o)
+		nexec += len(o.Ex)
+		if o.Spin {
+			spins++
+		}
+	}
+	wk := []string{}
+	for _, id := range c.ids() {
+		wk = append(wk, vh.Pair(vh.N(id), vh.N(workerOf(id, c.Workers))))
+	}
+	t := fmt.Sprintf("(Build_case %s %s %s %s)", vh.List(wk), vh.Ns(c.Parked), vh.List(evs), vh.List(obs))
+	w.Add(t, c, nexec >= 3 || spins > 0 || nrel > 0, sig)
+	if c.Fail != "" {
+		w.Fail(idx, c.Fail, "")
+	}
+	w.Count("mode", c.Mode)
+	w.Count("workers", fmt.Sprint(c.Workers))
+	w.Count("parked_tasks", fmt.Sprint(len(c.Parked)))
+	w.Count("cut", fmt.Sprint(c.Cut != ""))
+	w.Count("executions", fmt.Sprint(min(nexec/5*5, 40)))
+	w.Count("busy_wait_observed", fmt.Sprint(spins > 0))
+}
+
+func main() {
+	w := vh.New("C24", "From Verif Require Import Base.Prelude Model.C24.", "case", "check")
+	w.Rule = "event scripts (Schedule @every d with offset and lastScheduled / Release / clock advance / parked run returns) over <=3 tasks on the real TreeScheduler with 1-4 workers; hand-picked scripts first (3 of them on the REAL clock: the stale-timer shapes), then random scripts of 4-14 events generated on the fly under the mock clock (an event that would drive the scheduler into its negative re-arm branch is never issued there). Tasks whose runs are parked are only used when all tasks of the script hash to distinct workers. Non-trivial: >=3 executions, or a busy-wait state, or a release of a scheduled task. Distinct: distinct Gallina terms."
+	var rc jcase
+	if w.ReplayCase(&rc) {
+		if rc.Mode == "real" {
+			runReal(&rc)
+		} else {
+			runMock(&rc, true)
+		}
+		add(w, &rc)
+		w.Finish()
+		return
+	}
+	// real-clock cases run in the background while the mock cases are produced
+	reals := []*jcase{
+		{Mode: "real", Workers: 2, Evs: []jev{{E: "schedule", ID: 1, Every: 2}, {E: "schedule", ID: 2, Every: 6}, {E: "release", ID: 1}, {E: "advance", T: 3}, {E: "advance", T: 5}, {E: "advance", T: 7}}},
+		{Mode: "real", Workers: 2, Evs: []jev{{E: "schedule", ID: 1, Every: 2}, {E: "schedule", ID: 1, Every: 4, Last: 2}, {E: "advance", T: 3}, {E: "advance", T: 7}}},
+		{Mode: "real", Workers: 1, Evs: []jev{{E: "schedule", ID: 3, Every: 2}, {E: "schedule", ID: 2, Every: 4}, {E: "advance", T: 3}, {E: "release", ID: 3}, {E: "advance", T: 5}, {E: "advance", T: 9}}},
+	}
+	var wg sync.WaitGroup
+	for _, c := range reals {
+		wg.Add(1)
+		go func(c *jcase) { defer wg.Done(); runReal(c) }(c)
+	}
+	hand := []*jcase{
+		{Mode: "mock", Workers: 2, Evs: []jev{{E: "schedule", ID: 1, Every: 10}, {E: "advance", T: 45}, {E: "release", ID: 1}, {E: "advance", T: 80}}},
+		{Mode: "mock", Workers: 4, Parked: []uint64{1}, Evs: []jev{{E: "schedule", ID: 1, Every: 10}, {E: "advance", T: 10}, {E: "advance", T: 45}, {E: "done", ID: 1}, {E: "advance", T: 50}, {E: "release", ID: 1}, {E: "done", ID: 1}, {E: "advance", T: 90}}},
+		{Mode: "mock", Workers: 2, Evs: []jev{{E: "advance", T: 47}, {E: "schedule", ID: 1, Every: 10, Last: 0}, {E: "schedule", ID: 2, Every: 7, Off: 2, Last: 40}, {E: "advance", T: 60}}},
+		{Mode: "mock", Workers: 2, Evs: []jev{{E: "schedule", ID: 1, Every: 10}, {E: "schedule", ID: 2, Every: 100}, {E: "release", ID: 1}, {E: "advance", T: 9}, {E: "advance", T: 10}, {E: "advance", T: 120}}},
+		{Mode: "mock", Workers: 1, Evs: []jev{{E: "schedule", ID: 1, Every: 1}, {E: "schedule", ID: 2, Every: 1, Off: -1}, {E: "schedule", ID: 3, Every: 2, Off: 3}, {E: "advance", T: 6}}},
+	}
+	var cases []*jcase
+	cases = append(cases, hand...)
+	nRandom := w.N - len(reals) - len(hand)
+	for i := 0; i < nRandom; i++ {
+		r := w.Rng
+		c := &jcase{Mode: "mock", Workers: 1 + r.IntN(4), Seed: r.Uint64(), MaxLen: 4 + r.IntN(11)}
+		nt := 1 + r.IntN(3)
+		perm := r.Perm(6)
+		distinct := true
+		seen := map[uint64]bool{}
+		for _, p := range perm[:nt] {
+			id := uint64(p + 1)
+			c.pickIDs = append(c.pickIDs, id)
+			wk := workerOf(id, c.Workers)
+			if seen[wk] {
+				distinct = false
+			}
+			seen[wk] = true
+		}
+		sort.Slice(c.pickIDs, func(i, j int) bool { return c.pickIDs[i] < c.pickIDs[j] })
+		if distinct {
+			for _, id := range c.pickIDs {
+				if r.IntN(2) == 0 {
+					c.Parked = append(c.Parked, id)
+				}
+			}
+		}
+		cases = append(cases, c)
+	}
+	// mock cases run on a small pool
+	sem := make(chan struct{}, 6)
+	var wg2 sync.WaitGroup
+	for i, c := range cases {
+		wg2.Add(1)
+		sem <- struct{}{}
+		go func(i int, c *jcase) {
+			defer wg2.Done()
+			defer func() { <-sem }()
+			runMock(c, i < len(hand))
+		}(i, c)
+	}
+	wg2.Wait()
+	wg.Wait()
+	for _, c := range reals {
+		add(w, c)
+	}
+	for _, c := range cases {
+		add(w, c)
+	}
+	w.Finish()
 }
